@@ -576,6 +576,17 @@ impl LogReader {
         Ok(self.log_file.len()?)
     }
 
+    /**
+    Returns true if every byte of the log file was consumed as part of a valid block record.
+
+    This is false when the file ends in a partially written block record (e.g. a torn write) or
+    when corrupted records were skipped. Appending to such a file would make the appended records
+    unreadable, so it must not be reused for writing.
+    */
+    pub(crate) fn has_read_entire_file(&self) -> LogIOResult<bool> {
+        Ok(self.current_cursor_position as u64 == self.len()?)
+    }
+
     /// Log bytes dropped with the provided reason.
     fn log_drop(num_bytes_dropped: u64, reason: String) {
         log::error!(
